@@ -19,7 +19,9 @@ ID = "C09"
 LEVEL = "exploration"
 TECHNIQUE = "property-based text mutation (Hypothesis) + coverage-guided fuzzing (atheris/libFuzzer) with exception bucketing"
 RULE = (
-    "Three sources of input text. 'mutate': a seed (the repo's 60 test schemas or a freshly generated valid schema) with 1-4 "
+    "Part 'tower': sharing towers of 2..48 levels (level k names level k-1 two or three times as fields, array elements or alias "
+    "rows; bottom level empty / extensible / one bit), text linear in the levels, expanded structure exponential: must finish "
+    "(accepted when every size is 0, a parser error otherwise). Three further sources of input text. 'mutate': a seed (the repo's 60 test schemas or a freshly generated valid schema) with 1-4 "
     "token-level mutations (delete / delete run / duplicate / swap / replace by or insert a vocabulary token / truncate / splice "
     "two schemas / huge numbers / very long identifiers / deep nesting / odd characters). 'soup': random token sequences over the "
     "language's vocabulary. 'fuzz': atheris (libFuzzer, bitproto modules instrumented) on raw bytes decoded as UTF-8, 8 "
@@ -39,7 +41,7 @@ ASSUMPTIONS = [
     "longer than 3000 digits: N1), each is exercised by one deliberate probe per run instead",
     "a time budget hit is 'inconclusive', never a violation",
 ]
-REQUIRED_LABELS = ["accepted", "rejected:grammar", "rejected:lexer", "rendered"]
+REQUIRED_LABELS = ["accepted", "rejected:grammar", "rejected:lexer", "rendered", "mut:levels_ge20"]
 
 _seed_cache: Optional[List[Tuple[str, str]]] = None
 CASE_DIRS = ["tests/test_compiler/parser-cases", "tests/test_compiler/linter-cases"]
@@ -162,7 +164,11 @@ def _judge_inner(text: str, path: str, d: str, stats: Stats, origin: str) -> Non
         _unexpected(e, text, "parse-traditional", root, stats, origin)
         traditional = False
     out = os.path.join(d, "out")
-    for lang, optimize in [("c", False), ("go", False), ("py", False)] + ([("c", True), ("go", True)] if traditional else []):
+    # (towers: optimization mode expands every message in place, so its running time follows the EXPANDED structure - minutes
+    # for 22 levels of empty messages on the unchanged tree.  The statement demands termination of PARSING and exception-free
+    # rendering, not a bound on rendering time, so the tower family renders in standard mode only; see DESIGN.md 0.11.)
+    opt_too = traditional and not origin.startswith("tower")
+    for lang, optimize in [("c", False), ("go", False), ("py", False)] + ([("c", True), ("go", True)] if opt_too else []):
         try:
             p2 = bpapi.parse(path, traditional_mode=True) if optimize else proto
             bpapi.render(p2, lang, out, optimize=optimize)
@@ -316,6 +322,7 @@ PARTS = [
     HypPart("mutate", lambda tier: mutate_strategy(), run_text_case, {"quick": 2400, "thorough": 80000}),
     HypPart("soup", lambda tier: textmut.token_soup(), run_text_case, {"quick": 1200, "thorough": 40000}),
     HypPart("arith", lambda tier: textmut.arith_texts(), run_text_case, {"quick": 800, "thorough": 16000}),
+    HypPart("tower", lambda tier: textmut.tower_texts(), run_text_case, {"quick": 160, "thorough": 3200}),
     FuncPart("probes", probe_jobs, run_probe),
     FuncPart("fuzz", fuzz_jobs, run_fuzz),
 ]
